@@ -127,4 +127,23 @@ CONTRACTS += [
                'not decided: that list.remove never raises ValueError in the clean-up loop (multiset argument)',
                'not decided: that the ascending symbol list established by the inner collection loop is what ends up in the '
                'imports record (two statements: outDict[module] = []; outDict[module].extend(symbols)) and that no symbol is lost']),
+    # C16 / C05: the type an object refers to, in the symbol table: the SMIv2 class name (Counter -> Counter32, Gauge ->
+    # Gauge32, NetworkAddress -> IpAddress, INTEGER -> Integer32 through typeClasses - data checked by the table lemmas),
+    # attributed to the module the TRANSLATED name is imported from (genImports has rewritten the imports already), base
+    # types to no module, anything else to this module
+    Contract(
+        id='symtable.genSimpleSyntax', file=ST, func='SymtableCodeGen.genSimpleSyntax', serves=['C16', 'C05', 'C06'],
+        params={'self': Obj('SymtableCodeGen', _importMap=MapOf(), moduleName=Lst(Str)),
+                'data': OneOf(Lst(Str), Lst(Str, Any)), 'classmode': Any},
+        inline=['SymtableCodeGen.transOpers'], returns=Any,
+        let={'T': 'TRANS(ite(data[0] in self.typeClasses, self.typeClasses.get(data[0]), data[0]))'},
+        ensures={
+            'the_smiv2_class_name': 'not raised and result[0][0] == T',
+            'base_types_belong_to_no_module': 'implies(T in self.baseTypes, result[0][1] == "")',
+            'other_types_belong_to_the_module_the_translated_name_is_imported_from':
+                'implies(T not in self.baseTypes, same(result[0][1], ite(T in self._importMap, self._importMap.get(T), self.moduleName[0])))',
+            'the_subtype_is_kept': 'same(result[1], ite(len(data) == 2 and truthy(data[1]), data[1], ""))',
+            'observer': 'same(self._importMap, old(self._importMap))',
+        },
+        raises={}),
 ]
